@@ -192,3 +192,11 @@ Theorem attr_value_literals : forall av,
   (forall d mn mx h, av_type av = VHex -> attr_value (DefInt d mn mx h) av = Ok (ValInt (av_hex av))).
 Proof. exact ProofsAttrs.attr_value_literals. Qed.
 Print Assumptions attr_value_literals.
+
+(* well-known message attributes land in the dedicated fields: a non-zero cycle / delay / start-delay time or
+   send type of an imported message is the value of a BA_ line of that message (by CAN-ID) with the
+   well-known name, read with `attr_value` under the imported definition *)
+Theorem import_message_fields : forall d b, import d = Ok b ->
+  exists amap, def_map d = Ok amap /\ Forall (MF d amap) (b_messages b).
+Proof. exact ProofsAttrs.import_message_fields. Qed.
+Print Assumptions import_message_fields.
